@@ -84,6 +84,175 @@ def _funcs(norm):
             out[cur].append(line)
     return out
 
+def _inline_single_assignments(f):
+    """canonical form under introduction / removal of alias locals and hoisted invariants: a name that is bound exactly
+    once by a plain assignment (or a parameter re-bound exactly once at the top level) is substituted into its later
+    uses and the assignment is dropped; `a, b = (x, y)` is split first.  Only used for comparing, never for running."""
+    import copy
+    params = {a.arg for a in f.args.posonlyargs + f.args.args + f.args.kwonlyargs}
+
+    class Split(ast.NodeTransformer):
+        def visit_Assign(self, n):
+            if len(n.targets) == 1 and isinstance(n.targets[0], ast.Tuple) and isinstance(n.value, ast.Tuple) \
+                    and len(n.targets[0].elts) == len(n.value.elts) and all(isinstance(t, ast.Name) for t in n.targets[0].elts):
+                return [ast.copy_location(ast.Assign(targets=[t], value=v), t) for t, v in zip(n.targets[0].elts, n.value.elts)]
+            return n
+    f = Split().visit(f)
+    ast.fix_missing_locations(f)
+    for _ in range(200):
+        stores = {}
+        mutated = set()
+        for n in ast.walk(f):
+            if isinstance(n, (ast.Subscript, ast.Attribute)) and isinstance(n.ctx, (ast.Store, ast.Del)):
+                b = n.value
+                while isinstance(b, (ast.Subscript, ast.Attribute)):
+                    b = b.value
+                if isinstance(b, ast.Name):
+                    mutated.add(b.id)
+            if isinstance(n, ast.AugAssign) and isinstance(n.target, ast.Name):
+                stores[n.target.id] = stores.get(n.target.id, 0) + 1
+        for n in ast.walk(f):
+            if isinstance(n, ast.Name) and isinstance(n.ctx, (ast.Store, ast.Del)):
+                stores[n.id] = stores.get(n.id, 0) + 1
+            elif isinstance(n, ast.ExceptHandler) and n.name:
+                stores[n.name] = stores.get(n.name, 0) + 2
+        cand = None
+        for n in sorted((n for n in ast.walk(f) if isinstance(n, ast.Assign)), key=lambda n: (n.lineno, n.col_offset)):
+            if len(n.targets) == 1 and isinstance(n.targets[0], ast.Name) and stores.get(n.targets[0].id) == 1:
+                t = n.targets[0].id
+                if t in params and n not in f.body:
+                    continue
+                if any(isinstance(x, ast.Name) and x.id == t for x in ast.walk(n.value)) and t not in params:
+                    continue
+                if t in mutated:
+                    continue
+                cand = n
+                break
+        if cand is None:
+            break
+        t, val, pos = cand.targets[0].id, cand.value, (cand.end_lineno, cand.end_col_offset)
+
+        class Sub(ast.NodeTransformer):
+            def visit_Name(self, n):
+                if n.id == t and isinstance(n.ctx, ast.Load) and (n.lineno, n.col_offset) >= pos:
+                    return copy.deepcopy(val)
+                return n
+
+            def visit_Assign(self, n):
+                if n is cand:
+                    return None
+                return self.generic_visit(n)
+        f = Sub().visit(f)
+        for n in ast.walk(f):           # bodies emptied by the removal
+            for fld in ("body", "orelse"):
+                if isinstance(getattr(n, fld, None), list) and not getattr(n, fld) and fld == "body":
+                    setattr(n, fld, [ast.Pass()])
+        ast.fix_missing_locations(f)
+    return f
+
+
+def _alpha_normalise(func):
+    """copy of a FunctionDef with locals, private parameters, private attributes and private module names renamed
+    positionally, docstring / annotations / raise-messages removed"""
+    import copy
+    f = copy.deepcopy(func)
+
+    class DropAsserts(ast.NodeTransformer):     # an added invariant check is not a fact the model relies on (a firing
+        def visit_Assert(self, n):              # assert is a behaviour change and is caught by the oracle / correspondence)
+            return ast.copy_location(ast.Pass(), n)
+    f = _inline_single_assignments(DropAsserts().visit(f))
+    # every `for` statement / comprehension clause is its own scope: its variable is named by the ordinal of the loop
+    loops = sorted((n for n in ast.walk(f) if isinstance(n, (ast.For, ast.comprehension))),
+                   key=lambda n: ((n.lineno, n.col_offset) if isinstance(n, ast.For) else (n.target.lineno, n.target.col_offset)))
+    owner = {}
+    for n in ast.walk(f):
+        if isinstance(n, (ast.ListComp, ast.SetComp, ast.GeneratorExp, ast.DictComp)):
+            for g in n.generators:
+                owner[id(g)] = n
+    for k, lp in enumerate(loops):
+        tnames = [x.id for x in ast.walk(lp.target) if isinstance(x, ast.Name)]
+        scope = lp if isinstance(lp, ast.For) else owner.get(id(lp), lp)
+        for j, t in enumerate(tnames):
+            new_name = f"L{k}" + (f"_{j}" if len(tnames) > 1 else "")
+            for x in ast.walk(scope):
+                if isinstance(x, ast.Name) and x.id == t:
+                    x.id = new_name
+    public = not f.name.startswith("_") or (f.name.startswith("__") and f.name.endswith("__"))
+    params = [a.arg for a in f.args.posonlyargs + f.args.args + f.args.kwonlyargs]
+    if f.args.vararg: params.append(f.args.vararg.arg)
+    if f.args.kwarg: params.append(f.args.kwarg.arg)
+    ren = {}
+    if not public:
+        for k, p in enumerate(params):
+            if p not in ("self", "cls"):
+                ren[p] = f"p{k}"
+    # locals: names bound inside the function, numbered by the position of their first binding
+    bound = []
+    for n in ast.walk(f):
+        if isinstance(n, ast.Name) and isinstance(n.ctx, (ast.Store, ast.Del)):
+            bound.append((n.lineno, n.col_offset, n.id))
+        elif isinstance(n, ast.ExceptHandler) and n.name:
+            bound.append((n.lineno, n.col_offset, n.name))
+        elif isinstance(n, ast.arg) and n is not None and n.arg not in params:
+            bound.append((n.lineno, n.col_offset, n.arg))       # lambda / nested function parameters
+    for _, _, name in sorted(bound):
+        if re.fullmatch(r"L\d+(_\d+)?", name):
+            continue
+        if name not in ren and name not in params:
+            ren[name] = f"v{sum(1 for v in ren.values() if v.startswith('v'))}"
+    attrs, globs = {}, {}
+
+    class T(ast.NodeTransformer):
+        def visit_Name(self, n):
+            if n.id in ren:
+                n.id = ren[n.id]
+            elif n.id.startswith("_") and not n.id.startswith("__"):
+                n.id = globs.setdefault(n.id, f"_g{len(globs)}")
+            return n
+
+        def visit_arg(self, n):
+            n.annotation = None
+            if n.arg in ren:
+                n.arg = ren[n.arg]
+            return n
+
+        def visit_Attribute(self, n):
+            self.generic_visit(n)
+            if n.attr.startswith("_") and not n.attr.startswith("__"):
+                n.attr = attrs.setdefault(n.attr, f"_a{len(attrs)}")
+            return n
+
+        def visit_AnnAssign(self, n):
+            self.generic_visit(n)
+            if n.value is None:
+                return None
+            return ast.copy_location(ast.Assign(targets=[n.target], value=n.value), n)
+
+        def visit_Raise(self, n):
+            self.generic_visit(n)
+            if isinstance(n.exc, ast.Call):
+                n.exc.args, n.exc.keywords = [], []
+            return n
+
+        def visit_ExceptHandler(self, n):
+            self.generic_visit(n)
+            if n.name in ren:
+                n.name = ren[n.name]
+            return n
+    # attribute / global numbering must follow source order: visit in order of position
+    f.returns = None
+    if f.body and isinstance(f.body[0], ast.Expr) and isinstance(f.body[0].value, ast.Constant) and isinstance(f.body[0].value.value, str):
+        f.body = f.body[1:] or [ast.Pass()]
+    for n in sorted((n for n in ast.walk(f) if isinstance(n, (ast.Name, ast.Attribute))), key=lambda n: (n.lineno, n.col_offset, 0 if isinstance(n, ast.Name) else 1)):
+        if isinstance(n, ast.Attribute) and n.attr.startswith("_") and not n.attr.startswith("__"):
+            attrs.setdefault(n.attr, f"_a{len(attrs)}")
+        if isinstance(n, ast.Name) and n.id not in ren and n.id.startswith("_") and not n.id.startswith("__"):
+            globs.setdefault(n.id, f"_g{len(globs)}")
+    f = T().visit(f)
+    ast.fix_missing_locations(f)
+    return f
+
+
 def _join_conditions(lines):
     """merge continuation lines of if/elif/while headers (backslash or open parentheses) into one line"""
     out, buf = [], None
@@ -210,7 +379,10 @@ def _extract_source_facts(SRC):
     # --- get_trace_linear / affine: the decision structure, statement by statement
     X["get_trace_linear"] = tt["get_trace_linear"][5:] if False else [l for l in tt["get_trace_linear"] if not l.startswith(("cdef", "np.")) and "max_score)" not in l]
     X["get_trace_affine"] = [l for l in tt["get_trace_affine"] if re.match(r"(if|elif|else|trace|max_)", l) or l in ("TraceDirectionAffine.MATCH_TO_MATCH |",) or l.startswith("TraceDirectionAffine.") or l == ")"]
-    # --- alignment.py / matrix.py through ast
+    # --- alignment.py / matrix.py through ast, ALPHA-NORMALISED (pass 8): locals -> v0, v1, … by first binding,
+    # parameters of private functions -> p0, …, private attributes / module names -> _a0 / _g0 by first use; docstrings,
+    # annotations and the message arguments of `raise` are dropped; formatting goes through ast.unparse.  Public names
+    # (function names, their parameters, np.*, exception classes), literals, operators and statement order stay.
     at = ast.parse(open(os.path.join(SRC, "biotite/sequence/align/alignment.py")).read())
     fn = {n.name: n for n in at.body if isinstance(n, ast.FunctionDef)}
     for f in ("score", "find_terminal_gaps", "get_codes"):
@@ -220,29 +392,54 @@ def _extract_source_facts(SRC):
         names = [x.arg for x in a.args][len(a.args) - len(a.defaults):]
         return [(n, ast.unparse(d)) for n, d in zip(names, a.defaults)]
     X["defaults_score"] = defaults(fn["score"])
-    sc = fn["score"]
-    ifs = [n for n in ast.walk(sc) if isinstance(n, ast.If)]
-    X["score_ifs"] = [ast.unparse(n.test) for n in ifs]
-    aug = [(ast.unparse(n.target), type(n.op).__name__, ast.unparse(n.value)) for n in ast.walk(sc) if isinstance(n, ast.AugAssign)]
-    X["score_augassign"] = aug
-    X["score_assign"] = [ast.unparse(n) for n in ast.walk(sc) if isinstance(n, ast.Assign) and any(isinstance(t, ast.Name) and t.id in ("gap_open", "gap_ext", "in_gap", "start_index", "stop_index") for t in n.targets)] + \
-                        [ast.unparse(n) for n in ast.walk(sc) if isinstance(n, ast.Assign) and isinstance(n.targets[0], ast.Tuple)]
-    X["score_raises"] = [ast.unparse(n.exc.func) for n in ast.walk(sc) if isinstance(n, ast.Raise)]
-    ftg = fn["find_terminal_gaps"]
-    X["ftg_return"] = [ast.unparse(n.value) for n in ast.walk(ftg) if isinstance(n, ast.Return)]
-    X["ftg_assign"] = [ast.unparse(n) for n in ftg.body if isinstance(n, ast.Assign)]
-    X["get_codes_assign"] = [ast.unparse(n) for n in ast.walk(fn["get_codes"]) if isinstance(n, (ast.Assign,)) ]
+
+    def facts(f):
+        g = _alpha_normalise(f)
+        pos = lambda n: (n.lineno, n.col_offset)
+        nodes = sorted((n for n in ast.walk(g) if hasattr(n, "lineno")), key=pos)
+        out = {"ifs": [], "assign": [], "aug": [], "for": [], "ret": [], "raises": []}
+        for n in nodes:
+            if isinstance(n, (ast.If, ast.While, ast.IfExp)):
+                out["ifs"].append(ast.unparse(n.test))
+            elif isinstance(n, ast.Assign):
+                out["assign"].append(ast.unparse(n))
+            elif isinstance(n, ast.AugAssign):
+                out["aug"].append((ast.unparse(n.target), type(n.op).__name__, ast.unparse(n.value)))
+            elif isinstance(n, ast.For):
+                out["for"].append(ast.unparse(n.target) + " in " + ast.unparse(n.iter))
+            elif isinstance(n, ast.Return) and n.value is not None:
+                out["ret"].append(ast.unparse(n.value))
+            elif isinstance(n, ast.Raise) and n.exc is not None:
+                out["raises"].append(ast.unparse(n.exc.func if isinstance(n.exc, ast.Call) else n.exc))
+        return out
+    sc = facts(fn["score"])
+    X["score_ifs"], X["score_augassign"], X["score_assign"] = sc["ifs"], sc["aug"], sc["assign"] + sc["for"]
+    X["score_raises"] = sc["raises"]
+    ftg = facts(fn["find_terminal_gaps"])
+    X["ftg_return"], X["ftg_assign"] = ftg["ret"], ftg["assign"]
+    gc = facts(fn["get_codes"])
+    X["get_codes_assign"] = gc["assign"] + gc["for"] + gc["ret"]
     mt = ast.parse(open(os.path.join(SRC, "biotite/sequence/align/matrix.py")).read())
     cls = [n for n in mt.body if isinstance(n, ast.ClassDef) and n.name == "SubstitutionMatrix"]
     if not cls: raise TieError("class SubstitutionMatrix not found")
-    init = [n for n in cls[0].body if isinstance(n, ast.FunctionDef) and n.name == "__init__"][0]
-    X["matrix_init_tests"] = [ast.unparse(n.test) for n in ast.walk(init) if isinstance(n, ast.If)]
-    X["matrix_init_raises"] = [ast.unparse(n.exc.func) for n in ast.walk(init) if isinstance(n, ast.Raise)]
-    X["matrix_astype"] = [ast.unparse(n) for n in ast.walk(init) if isinstance(n, ast.Assign) and "astype" in ast.unparse(n)]
-    fill = [n for n in cls[0].body if isinstance(n, ast.FunctionDef) and n.name == "_fill_with_matrix_dict"][0]
-    X["matrix_fill_dict"] = [ast.unparse(n) for n in fill.body]
-    dfs = [n for n in cls[0].body if isinstance(n, ast.FunctionDef) and n.name == "dict_from_str"][0]
-    X["matrix_dict_from_str"] = [ast.unparse(n) for n in dfs.body if not isinstance(n, ast.Expr)]
+    meth = {n.name: n for n in cls[0].body if isinstance(n, ast.FunctionDef)}
+    if "__init__" not in meth or "dict_from_str" not in meth:
+        raise TieError("SubstitutionMatrix.__init__ / dict_from_str not found")
+    init = meth["__init__"]
+    # the private method that fills the matrix from a dictionary is found by its use: self.<private>(<the matrix argument>)
+    marg = init.args.args[-1].arg
+    helper = [n.func.attr for n in ast.walk(init) if isinstance(n, ast.Call) and isinstance(n.func, ast.Attribute)
+              and isinstance(n.func.value, ast.Name) and n.func.value.id == "self" and n.func.attr.startswith("_")
+              and any(isinstance(x, ast.Name) and x.id in (marg,) or True for x in n.args) and n.func.attr in meth]
+    if not helper:
+        raise TieError("SubstitutionMatrix.__init__ no longer calls a private fill method")
+    fi = facts(init)
+    X["matrix_init_tests"], X["matrix_init_raises"] = fi["ifs"], fi["raises"]
+    X["matrix_astype"] = [x for x in fi["assign"] if "astype" in x]
+    fd = facts(meth[helper[0]])
+    X["matrix_fill_dict"] = fd["assign"] + fd["for"]
+    ds = facts(meth["dict_from_str"])
+    X["matrix_dict_from_str"] = ds["assign"] + ds["for"] + ds["ret"]
     return X
 
 
